@@ -47,7 +47,7 @@ LEVEL = "fault_enumeration"
 SOFT_TIMEOUT = 20
 TIERS = {
   "quick": {"runs": 1200, "hard_timeout": 60, "confirm_timeout": 120, "shrink_budget": 25, "shrink_total": 240, "det_sample": 30},
-  "thorough": {"runs": 600000, "hard_timeout": 90, "confirm_timeout": 120, "shrink_budget": 90, "shrink_total": 900, "det_sample": 120},
+  "thorough": {"runs": 12000, "hard_timeout": 90, "confirm_timeout": 120, "shrink_budget": 90, "shrink_total": 900, "det_sample": 120},
 }
 FORMATS = ["srt", "vtt", "scc", "stl", "ttml"]
 SWEEP_PERIOD = 40
@@ -124,7 +124,7 @@ def gen_cfg(rng):
   }
 
 
-DEFAULT_CFG = {"srt": None, "vtt": [None], "imsc": [None], "lcd": {}, "stl": None, "scc": None}
+DEFAULT_CFG = {"srt": None, "vtt": [None, {"line_position": True, "text_align": True, "cue_id": False}], "imsc": [None], "lcd": {}, "stl": None, "scc": None}
 
 
 # ------------------------------------------------------------------ the consumer (real code)
